@@ -21,12 +21,12 @@ TRANSLATABLE = {
     "alldifferent", "lexicographic_leq", "max_eq", "max_leq", "min_eq", "min_geq", "affine_eq", "affine_leq",
     "affine_geq", "exactly_eq", "gcc", "relation", "dummy",
 }
-KINDS = ["permute_props", "duplicate", "always_true", "permute_vars", "unshare", "translate", "permute_domains", "incremental"]
+KINDS = ["permute_props", "duplicate", "always_true", "permute_vars", "unshare", "translate", "permute_domains", "incremental", "views_api"]
 
 
 def rewrite(ch: Choices, model: dict, kind: str):
     """Returns (new model, back) where back maps a solution of the new model to one of the original."""
-    m = copy.deepcopy({k: model[k] for k in ("shr", "idx", "off", "props", "_incremental") if k in model})
+    m = copy.deepcopy({k: model[k] for k in ("shr", "idx", "off", "props", "_incremental", "_views_api") if k in model})
     nv = len(m["idx"])
     ident = lambda s: tuple(s)
     if kind == "permute_props":
@@ -60,7 +60,27 @@ def rewrite(ch: Choices, model: dict, kind: str):
             return None, None
         m["_incremental"] = 1 + ch.choose(n, "k")
         return m, ident
+    if kind == "views_api":
+        # the same model written through the API for views: the shared domains and the first variables go through
+        # the constructor, every further variable is added by add_variable(placeholder, dom_index, dom_offset) (or
+        # add_variables with explicit lists), which also appends an unused, instantiated placeholder domain
+        n0 = len(m["shr"])
+        if nv <= n0 or "_views_api" in m or "_incremental" in m:
+            return None, None
+        groups = []
+        left = nv - n0
+        while left:
+            g = 1 + ch.choose(min(left, 3), f"g{len(groups)}")
+            groups.append(g)
+            left -= g
+        for j in range(n0, nv):
+            c = ch.choose(4, f"ph{j}") - 1
+            m["shr"].append([c, c])
+        m["_views_api"] = {"n0": n0, "groups": groups}
+        return m, ident
     if kind == "permute_vars":
+        if "_views_api" in m:
+            return None, None
         perm = ch.shuffle(list(range(nv)), "perm")  # new position p holds old variable perm[p]
         pos = {old: p for p, old in enumerate(perm)}
         # the first len(shr) variables need not be the domain owners: nothing in NuCS requires it
@@ -70,6 +90,8 @@ def rewrite(ch: Choices, model: dict, kind: str):
         m["_fwd"] = dict(pos)
         return m, (lambda s: tuple(s[pos[old]] for old in range(nv)))
     if kind == "permute_domains":
+        if "_views_api" in m:
+            return None, None
         nd = len(m["shr"])
         perm = ch.shuffle(list(range(nd)), "perm")  # new domain j is old domain perm[j]
         newidx = {old: j for j, old in enumerate(perm)}
@@ -77,6 +99,8 @@ def rewrite(ch: Choices, model: dict, kind: str):
         m["idx"] = [newidx[d] for d in model["idx"]]
         return m, ident
     if kind == "unshare":
+        if "_views_api" in m:
+            return None, None
         owners = {}
         for v in range(nv):
             d = m["idx"][v]
